@@ -20,7 +20,7 @@ META = {
     'functions': ['xfab.parameters.parameters.' + m for m in ('addpar', 'set', 'get', 'set_parameters', 'get_parameters', 'set_varylist', 'set_variable_values',
                                                               'get_variable_values', 'update_other', 'update_yourself', 'saveparameters', 'loadparameters', 'dumbtypecheck')]
                  + ['xfab.parameters.par.__init__'],
-    'bounds': {'values': 'all integers, all reals standing for binary64 floats, opaque space-free non-numeric strings', 'sequences': 'length <= 3 (property: <= 30) over 7 operations; longer histories only through the per-step comparison with the model',
+    'bounds': {'values': 'all integers, all reals standing for binary64 floats, opaque space-free non-numeric strings', 'sequences': 'length <= 3 (thorough: <= 4; property: <= 30) over 7 operations; longer histories only through the per-step comparison with the model',
                'names': 'pool a, b, c-d (hyphenated) for files; a, b, c for sequences'},
     'outside_claim': ['bit-exact float round trip through repr/float (assumed contract, C-level dtoa)', 'sequences longer than 3', 'strings containing blanks'],
     'stubs': ['open() -> in-memory file', 'str/float/int on symbolic values -> contract stubs (tokens)', 'logger -> no-op'],
@@ -171,7 +171,7 @@ def run_unit(u, desc, tier, seed):
         elif group == 'dtc':
             run_dtc(u, P)
         else:
-            run_sequences(u, P)
+            run_sequences(u, P, tier)
     finally:
         for k, v in saved.items():
             if had[k]:
@@ -313,7 +313,7 @@ class Other:
     pass
 
 
-def run_sequences(u, P):
+def run_sequences(u, P, tier='quick'):
     """all sequences of up to 3 API calls; values are fresh symbolic integers; model = plain dict + lists"""
     cnt = [0]
 
@@ -331,9 +331,9 @@ def run_sequences(u, P):
     nseq = 0
     bad = []
     for ii, mk in enumerate(inits):
-        for L in (1, 2, 3):
+        for L in ((1, 2, 3) if tier == 'quick' else (1, 2, 3, 4)):
             for seq in itertools.product(ops, repeat=L):
-                if L == 3 and ii == 0 and seq[0][0] not in ('addpar',):
+                if L >= 3 and ii == 0 and seq[0][0] not in ('addpar',):
                     continue        # from the empty object only sequences that start by adding a parameter are interesting at length 3
                 nseq += 1
                 p = mk()
